@@ -246,6 +246,7 @@ class Cfg:
     text: Any = None  # override strategy for literal text
     strings: Any = None  # override strategy for string literals
     inspect_captures: bool = True  # allow size/slice/... on captured text
+    range_vars: bool = True  # allow (small) variables as range bounds
 
 
 WS_CHARS = " \t\n\r\x0b\x0c\x1c\x1d\x1e\x1f\x85\xa0        　"
@@ -464,9 +465,12 @@ class Gen:
         if want == "any" and r == 8:
             return [self.pick(["empty", "blank"])]
         if want in LIST_TYPES + ("seq",) and r >= 8:
-            a = self.path("int", 0) or ["int", self.i(0, 3)]
-            b = self.path("int", 0) or ["int", self.i(0, 5)]
-            return ["range", a if self.p(0.3) else ["int", self.i(-1, 3)], b if self.p(0.3) else ["int", self.i(0, 6)]]
+            # range bounds: small literals or variables that the data strategy keeps small
+            # (a bound like 2**31 materialises gigabytes in reverse/join/sort - not a subject here)
+            small = [v for v in ("m", "idx", "a-b") if self.scope.get(v) == "int"] if self.cfg.range_vars else []
+            a = ["path", self.pick(small), []] if small and self.p(0.3) else ["int", self.i(-1, 3)]
+            b = ["path", self.pick(small), []] if small and self.p(0.3) else ["int", self.i(0, 6)]
+            return ["range", a, b]
         return self.literal(want)
 
     def tstr(self, depth: int) -> list[Any]:
